@@ -101,13 +101,23 @@ async fn run(mut sim: Sim, _seed: u64) -> Result<Value, String> {
     let mut shutdown_results: Vec<Value> = Vec::new();
     match kind {
         0 | 1 | 2 => {
-            let copies = if kind == 0 { 1 } else { 2 };
+            let copies = if kind == 0 { 1 } else { sim.rng.gen_range(2..5) };
             let mut hs = Vec::new();
             for c in 0..copies {
                 let net = net.clone();
+                let run = sim.run.clone();
+                let addr = sim.addr(victim);
+                let live = sim.nodes[victim].live_services.clone();
                 hs.push(tokio::spawn(async move {
                     let r = tokio::time::timeout(Duration::from_secs(120), net.shutdown()).await;
-                    json!({"copy": c, "ok": matches!(r, Ok(Ok(()))), "hang": r.is_err()})
+                    let ok = matches!(r, Ok(Ok(())));
+                    // what this caller finds the instant its own call returns
+                    run.obs(victim as i64, "obs.shutdown_return", json!({
+                        "copy": c, "ok": ok, "hang": r.is_err(), "closed": net.is_closed(), "peers": net.peers().len(),
+                        "rebind": !run.fabric.is_bound(addr) && std::net::UdpSocket::bind(addr).is_ok(),
+                        "live_services": live.load(std::sync::atomic::Ordering::SeqCst),
+                    }));
+                    json!({"copy": c, "ok": ok, "hang": r.is_err()})
                 }));
                 if kind == 2 {
                     tokio::time::sleep(Duration::from_millis(1)).await;
